@@ -345,8 +345,116 @@ def for_over_absstr(interp, st, it, frame):
 
 # ----------------------------------------------------------------------------- while
 
+def _scan_pattern(st):
+    """`while k < len(S) and S[k] in <constants>: k += 1` (either order of the two tests; `==` for one constant).
+    Returns (index name, string expression, set of characters) or None."""
+    t = st.test
+    if not (isinstance(t, ast.BoolOp) and isinstance(t.op, ast.And) and len(t.values) == 2 and not st.orelse and len(st.body) == 1):
+        return None
+    b = st.body[0]
+    if not (isinstance(b, ast.AugAssign) and isinstance(b.op, ast.Add) and isinstance(b.target, ast.Name)
+            and isinstance(b.value, ast.Constant) and b.value.value == 1):
+        return None
+    k = b.target.id
+    bound = member = None
+    for v in t.values:
+        if isinstance(v, ast.Compare) and len(v.ops) == 1:
+            l, op, r = v.left, v.ops[0], v.comparators[0]
+            if isinstance(op, ast.Lt) and isinstance(l, ast.Name) and l.id == k and isinstance(r, ast.Call) and isinstance(r.func, ast.Name) \
+                    and r.func.id == "len" and len(r.args) == 1:
+                bound = r.args[0]
+            elif isinstance(op, (ast.In, ast.Eq)) and isinstance(l, ast.Subscript) and isinstance(l.slice, ast.Name) and l.slice.id == k:
+                chars = None
+                if isinstance(op, ast.Eq) and isinstance(r, ast.Constant) and isinstance(r.value, str) and len(r.value) == 1:
+                    chars = {r.value}
+                elif isinstance(op, ast.In) and isinstance(r, ast.Constant) and isinstance(r.value, str):
+                    chars = set(r.value)
+                elif isinstance(op, ast.In) and isinstance(r, (ast.Tuple, ast.List, ast.Set)) and all(
+                        isinstance(e, ast.Constant) and isinstance(e.value, str) and len(e.value) == 1 for e in r.elts):
+                    chars = {e.value for e in r.elts}
+                if chars:
+                    member = (l.value, chars)
+    if bound is None or member is None or ast.dump(bound) != ast.dump(member[0]):
+        return None
+    return k, bound, member[1]
+
+
+def _summarise_scan(interp, st, frame):
+    """An index that runs over the characters of an abstract string while they belong to a set of characters: the index
+    ends at the first unit that does not belong (a whole run whose characters all belong is passed in one step)."""
+    from .absint import CannotDecide
+    pat = _scan_pattern(st)
+    if pat is None:
+        return False
+    k, sexpr, chars = pat
+    k0 = frame.locals.get(k)
+    if not isinstance(k0, int) or isinstance(k0, bool) or k0 < 0:
+        return False
+    sval = interp.eval(sexpr, frame)
+    if isinstance(sval, (str, Ch)):
+        sval = AbsStr([sval])
+    if not isinstance(sval, AbsStr):
+        return False
+    sval = interp.norm_str(sval)
+    if not (sval.has_run() or any(isinstance(a, Rep) for a in sval.atoms)):
+        return False  # a concrete string: the loop simply runs
+    # position as a linear form; walk the atoms
+    pos = Lin({}, 0)
+    stopped = False
+    units = []
+    for a in sval.atoms:
+        if isinstance(a, str):
+            units.extend(list(a))
+        else:
+            units.append(a)
+    i = 0
+    while i < len(units) and (not pos.is_const() or pos.const < k0):
+        # skip the (concrete) prefix before the start index
+        u = units[i]
+        if not isinstance(u, (str, Ch)) or not pos.is_const():
+            return False
+        pos = pos + 1
+        i += 1
+    for u in units[i:]:
+        if isinstance(u, str):
+            if u in chars:
+                pos = pos + 1
+                continue
+            stopped = True
+            break
+        if isinstance(u, Ch):
+            r = u.contains_only(sorted(chars))
+            if r is True:
+                pos = pos + 1
+                continue
+            if r is False:
+                stopped = True
+                break
+            return False
+        if isinstance(u, Run):
+            rs = [c.contains_only(sorted(chars)) for c in u.classes]
+            if all(r is True for r in rs):
+                for c in u.classes:
+                    pos = pos + Lin.of(u.count[c.name])
+                continue
+            if all(r is False for r in rs):
+                # the run may be empty: then the scan goes on behind it -- not summarised
+                return False
+            return False
+        if isinstance(u, Rep):
+            if set(u.lit) <= chars:
+                pos = pos + u.count.scale(len(u.lit))
+                continue
+            return False
+        return False
+    frame.locals[k] = pos if not pos.is_const() else int(pos.const)
+    return True
+
+
 def while_loop(interp, st, frame):
     from .absint import BreakEx, ContinueEx, CannotDecide
+    if _summarise_scan(interp, st, frame):
+        return
     iters = 0
     watched = sorted(set(_assigned_names(st.body)) | {n.id for n in ast.walk(st.test) if isinstance(n, ast.Name)})
     seen_states = set()
